@@ -845,6 +845,64 @@ def cli_cases(g, group, thorough):
             out.append(("i", tiny, "n\n" * 5))
             out.append(("i", tiny, ""))
             out.append(("i", tiny, "print reg\nq\n"))
+    elif group == "dataref":
+        # C12 with an image computed HERE from the definitions (not by the model, not from the grammar): SET / DB / DW of all
+        # kinds; the dump of every segment touched and the offset of every label must be what the property says
+        for _ in range(n(200, 2500)):
+            img = {}
+            seg, off = 0, 0
+            lines, labels, touched = [], [], []
+            def put(bs):
+                nonlocal off
+                for bt in bs:
+                    img[(seg * 16 + off) % 1048576] = bt
+                    off += 1
+            nd = r.randrange(1, 9)
+            for k in range(nd):
+                if r.random() < 0.25:
+                    seg = r.choice([0, 1, 2, 0x10, 0x1000, 0xFFFF, 0xFFFE, r.randrange(65536)])
+                    off = 0
+                    lines.append(r.choice(["set", "SET"]) + " " + g.num(seg, seg))
+                lbl = ""
+                if r.random() < 0.6:
+                    lbl = "L%d" % k
+                    labels.append((lbl, off))
+                    lbl += ": "
+                if (seg, off) not in touched:
+                    touched.append((seg, off))
+                kind = r.randrange(6)
+                if kind == 0:
+                    v = r.choice([0, 1, 127, 128, 255, -1, -128, r.randrange(256)])
+                    lines.append(lbl + r.choice(["db", "DB"]) + " " + str(v)); put([v % 256])
+                elif kind == 1:
+                    v = r.choice([0, 1, 0x1234, 0x8000, 0xFFFF, -1, -32768, r.randrange(65536)])
+                    lines.append(lbl + r.choice(["dw", "DW"]) + " " + (str(v) if v < 0 else g.num(v, v))); put([v % 256, (v // 256) % 256])
+                elif kind == 2:
+                    c = r.choice([0, 1, 2, 5, 16, 17])
+                    lines.append(lbl + "db [%s]" % g.num(c, c)); put([0] * c)
+                elif kind == 3:
+                    c = r.choice([0, 1, 2, 7])
+                    lines.append(lbl + "dw [%s]" % g.num(c, c)); put([0] * (2 * c))
+                elif kind == 4:
+                    t = "".join(r.choice("ABCxyz019 _") for _k in range(r.randrange(0, 7)))
+                    lines.append(lbl + 'db "%s"' % t); put([ord(ch) for ch in t])
+                else:
+                    t = "".join(r.choice("ABCxyz019 _") for _k in range(r.randrange(0, 5)))
+                    lines.append(lbl + 'dw "%s"' % t); put([bb for ch in t for bb in (ord(ch), 0)])
+            body, exps = ["start:"], []
+            for (sg, o0) in touched[:3]:
+                a0 = (sg * 16 + o0) % 1048576
+                ln = r.choice([8, 17, 33])
+                if a0 + ln >= 1048576:
+                    ln = 1048575 - a0
+                cmd = "print mem %d -> %d" % (a0, a0 + ln)
+                body.append(cmd)
+                exps.append("ws:" + cmd + " : " + " ".join("%02X" % img.get(a0 + k, 0) for k in range(ln + 1)))
+            for (lb, o) in labels[:2]:
+                body += ["mov bx, offset %s" % lb, "print reg"]
+                exps.append("BX : 0x%04X" % o)
+            src = "\n".join(lines + body) + "\n"
+            out.append(("-", src, "") + tuple(exps))
     elif group == "strings":
         # C07 through the real run loop: every string mnemonic x width x DF x prefix, driven by the binary's own
         # REPEAT handling to completion; conditional repeats over data that stops them early, late or never
@@ -1121,7 +1179,7 @@ def main():
         for i, case in enumerate(cli_cases(g, group, thorough)):
             flag, src, stdin = case[:3]
             if i % nshards == shard:
-                w("cli " + flag + " | " + enc(src) + " | " + enc(stdin) + (" | expect=" + enc(case[3]) if len(case) > 3 else "") + "\n")
+                w("cli " + flag + " | " + enc(src) + " | " + enc(stdin) + "".join(" | expect=" + enc(e) for e in case[3:]) + "\n")
         return
     for i, c in enumerate(cases):
         if i % nshards == shard:
